@@ -5,6 +5,14 @@ from concurrent.futures import ProcessPoolExecutor
 V = os.path.dirname(os.path.dirname(os.path.abspath(__file__)))
 PROPS = [c["property_id"] for c in json.load(open(os.path.join(V, "MANIFEST.json")))["checks"]]
 
+def is_neutral(d):
+    return any(t in d for t in ("/wt/N", "/wt/B", "/wt/M", "/wt/P", "/wt/Q", "/wt/S", "/wt/T", "/wt/Z", "seeded_neutral"))
+
+
+def own_of(d):
+    return ("C" + os.path.basename(os.path.dirname(os.path.dirname(d)))[1:]) if "/out/" in d + "/" else json.load(open(os.path.join(d, "meta.json")))["property"]
+
+
 def one(d):
     patch = os.path.join(d, "patch.diff")
     if not os.path.exists(patch):
@@ -17,8 +25,11 @@ def one(d):
         if r.returncode:
             return d, "NOAPPLY " + r.stderr.strip()[:80]
         env = dict(os.environ, AMSHAN_REPO=tmp)
+        props = PROPS
+        if os.environ.get("MX_OWN") and not is_neutral(d):
+            props = [own_of(d)]
         code = ("import json,sys\nfrom sa.main import run_property\nout={}\n"
-                f"for p in {PROPS!r}:\n    rep,c=run_property(p,'quick',0,write=False,quiet=True)\n    out[p]=[c,[f.rule+':'+f.construct for f in rep.findings][:3],[u[:90] for u in rep.undecided][:2]]\nprint(json.dumps(out))")
+                f"for p in {props!r}:\n    rep,c=run_property(p,'quick',0,write=False,quiet=True)\n    out[p]=[c,[f.rule+':'+f.construct for f in rep.findings][:3],[u[:90] for u in rep.undecided][:2]]\nprint(json.dumps(out))")
         r = subprocess.run(["/venv/bin/python", "-B", "-c", code], cwd=V, env=env, capture_output=True, text=True)
         try:
             return d, json.loads(r.stdout.strip().splitlines()[-1])
@@ -29,22 +40,22 @@ def one(d):
 
 if __name__ == "__main__":
     dirs = sys.argv[1:]
-    with ProcessPoolExecutor(max_workers=12) as ex:
+    with ProcessPoolExecutor(max_workers=int(os.environ.get('MX_JOBS', '12'))) as ex:
         for d, res in ex.map(one, dirs):
             if res is None:
                 continue
             if isinstance(res, str):
                 print(d, res); continue
-            if "/wt/N" in d or "/wt/B" in d or "/wt/M" in d or "/wt/P" in d or "/wt/Q" in d or "/wt/S" in d or "/wt/T" in d or "seeded_neutral" in d:
+            if is_neutral(d):
                 bad = {p: x for p, x in res.items() if x[0] != 0}
-                print(f"{d}: NEUTRAL {'clean' if not bad else 'FALSE-ALARM'}")
+                print(f"{d}: NEUTRAL {'clean' if not bad else 'FALSE-ALARM'}", flush=True)
                 for p, x in bad.items():
                     print("      ", p, x)
                 continue
-            own = ("C" + os.path.basename(os.path.dirname(os.path.dirname(d)))[1:]) if "/out/" in d + "/" else json.load(open(os.path.join(d, "meta.json")))["property"]
+            own = own_of(d)
             v = [p for p, x in res.items() if x[0] == 1]
             u = [p for p, x in res.items() if x[0] == 2]
             status = "CAUGHT-OWN" if own in v else ("caught-other" if v else ("UNDECIDED" if u else "MISSED"))
-            print(f"{d}: own={own} {status} viol={v} und={u}")
+            print(f"{d}: own={own} {status} viol={v} und={u}", flush=True)
             if own in res and res[own][0] != 1:
                 print("      own:", res[own])
